@@ -359,7 +359,9 @@ def check(run: Run) -> None:
         run.violation("R13.3", gm, cc.qualname, "priority CONST > ENUM > REGEX > TYPE > DATE/ISO8601", f"compile_chain selects members in the order {order}: a less specific member would shape the rule (e.g. TYPE[STRING] before ENUM), so the grammar generates values the ENUM/CONST of the same chain rejects")
 
     # ---------------------------------------------------------------- R13.4
-    cs = gm.func("GBNFCompiler.compile_schema")
+    from .c12 import grammar_builder_view
+
+    cs, _inl = grammar_builder_view(gm)  # compile_schema with extracted grammar-building helpers inlined
     tmpl = None
     for n in walk_no_nested(cs.node):
         if isinstance(n, ast.JoinedStr):
